@@ -600,7 +600,7 @@ static uint64_t mix(uint64_t x) {
   return x ^ (x >> 31);
 }
 
-static uint64_t g_soft = 400000, g_hard = 4000000, g_base_seed;
+static uint64_t g_soft = 400000, g_hard = 4000000, g_base_seed, g_long_stall;
 
 static uint64_t base_watch_t[VS_MAX_THREADS], base_points_t[VS_MAX_THREADS];
 static void derive_cfg(vs_config_t* c, uint64_t base_seed, int i, uint64_t base_points, uint64_t base_watch, int tso_mode, char* sname,
@@ -670,6 +670,13 @@ static void derive_cfg(vs_config_t* c, uint64_t base_seed, int i, uint64_t base_
     snprintf(sname, sn, "targeted_d%d", c->pct_depth);
   }
   if (c->tso) strncat(sname, "+tso", sn - strlen(sname) - 1);
+}
+
+static void long_cfg(vs_config_t* c) {
+  c->stall_len = g_long_stall;
+  c->stall_spins = (1ull << 26) + (1ull << 22);
+  c->soft_budget = c->hard_budget = g_hard + 2 * g_long_stall;
+  g_wall_limit = 180.0;
 }
 
 // JSON helpers
@@ -829,6 +836,7 @@ int main(int argc, char** argv) {
     else if (!strcmp(argv[i], "--soft") && i + 1 < argc) g_soft = strtoull(argv[++i], 0, 10);
     else if (!strcmp(argv[i], "--hard") && i + 1 < argc) g_hard = strtoull(argv[++i], 0, 10);
     else if (!strcmp(argv[i], "--wall") && i + 1 < argc) g_wall_limit = atof(argv[++i]);
+    else if (!strcmp(argv[i], "--long-stall") && i + 1 < argc) g_long_stall = strtoull(argv[++i], 0, 10);
     else if (!strcmp(argv[i], "--no-tolerate")) rt_tolerate_known_reads = 0;
   }
   g_base_seed = base_seed;
@@ -860,7 +868,8 @@ int main(int argc, char** argv) {
     c.strategy = VS_STRAT_REPLAY;
     c.tso = replay_tso;
     c.soft_budget = g_soft;
-    c.hard_budget = g_hard;
+    c.hard_budget = g_hard + 2 * g_long_stall;
+    if (g_long_stall) g_wall_limit = 120.0;
     c.n_replay = m;
     c.replay_points = pts;
     c.replay_tids = tids;
@@ -882,6 +891,8 @@ int main(int argc, char** argv) {
   int n_hashes = 0;
   uint64_t base_points = 0, base_watch = 0;
   int have_violation = 0;
+  int expired_idx[256], n_expired = 0;
+  uint64_t expired_score[256];
   vs_result_t* vres = malloc(sizeof *vres);
   vs_config_t vcfg;
   char vsname[48] = "";
@@ -894,6 +905,17 @@ int main(int argc, char** argv) {
     vs_config_t c;
     char sname[48];
     derive_cfg(&c, base_seed, i, base_points, base_watch, tso_mode, sname, sizeof sname);
+    if (g_long_stall && only_index >= 0 && i == only_index && c.stall_thread) {
+      // long-stall run (--only i --long-stall N): the stall schedules hold a thread for at most 300000 scheduling points; this one
+      // is run again with the thread held until the others have polled 2^26 + 2^22 times (at most N scheduling points; 10^9 points
+      // are 10-25 s of real time) - what a bounded wait ("give up after 2^26 polls") needs to show itself
+      long_cfg(&c);
+      char t[48];
+      snprintf(t, sizeof t, "long_%s", sname);
+      strncpy(sname, t, sizeof sname - 1);
+      sname[sizeof sname - 1] = 0;
+      agg_add("long_stall_runs", 1);
+    }
     int st = run_one(&c);
     execs++;
     total_points += shres->points;
@@ -930,6 +952,16 @@ int main(int argc, char** argv) {
     if (shres->tso_buffered) agg_add("tso_buffered", shres->tso_buffered);
     if (shres->tso_hidden_reads) agg_add("tso_hidden_reads", shres->tso_hidden_reads);
     if (st == 3) inconclusive++;
+    // candidates for a long-stall run (see below): somebody was busy-waiting (cpu_relax) while a thread was held, or - thread-level
+    // harnesses - the stall ran out while the others were still running
+    if (!g_long_stall && st == 1 && c.stall_thread && n_expired < 256) {
+      uint64_t sp = res_label(shres, "stall_spins");
+      uint64_t sc = (sp >= 200 ? sp * 4 : 0) + (H->entry != 0 && res_label(shres, "stall_expired") ? c.stall_len / 1000 : 0);
+      if (sc) {
+        expired_idx[n_expired] = i;
+        expired_score[n_expired++] = sc;
+      }
+    }
     if (res_label(shres, "nontrivial") > 0 && st != 3) {
       nontrivial++;
       int dup = 0;
@@ -976,7 +1008,7 @@ int main(int argc, char** argv) {
       if (stop_first) break;
     }
   }
-  if (have_violation && do_min && !vres->decisions_overflow && strncmp(vres->kind, "kernel_thread_blocked", 21) != 0) {
+  if (have_violation && do_min && !g_long_stall && !vres->decisions_overflow && strncmp(vres->kind, "kernel_thread_blocked", 21) != 0) {
     minimise(vres, vcfg.tso, vcfg.seed, 150);
   }
   printf("{\"harness\":\"%s\",\"executions\":%d,\"nontrivial\":%d,\"distinct_nontrivial\":%d,\"inconclusive\":%d,\"points\":%llu,\"switches\":%llu,\"wall_s\":%.3f,\"labels\":{",
@@ -986,7 +1018,16 @@ int main(int argc, char** argv) {
   for (int i = 0; i < n_strat; i++) printf("%s\"%s\":%llu", i ? "," : "", strat[i].name, (unsigned long long)strat[i].sum);
   printf("},\"tolerated_freed_reads\":{\"count\":%llu,\"pcs\":[", (unsigned long long)tol_count);
   for (int i = 0; i < n_tol_pc; i++) printf("%s\"0x%llx\"", i ? "," : "", (unsigned long long)tol_pc[i]);
-  printf("]},\"replay_mismatch\":%d,\"violation\":", replay_mismatch);
+  printf("]},\"long_candidates\":[");
+  for (int k = 0, out = 0; k < 3; k++) {
+    int best = -1;
+    for (int q = 0; q < n_expired; q++)
+      if (expired_score[q] && (best < 0 || expired_score[q] > expired_score[best])) best = q;
+    if (best < 0) break;
+    printf("%s%d", out++ ? "," : "", expired_idx[best]);
+    expired_score[best] = 0;
+  }
+  printf("],\"replay_mismatch\":%d,\"violation\":", replay_mismatch);
   if (have_violation)
     print_violation(stdout, vres, &vcfg, vidx, vsname);
   else
